@@ -317,6 +317,11 @@ def run_property(prop, tier, seed, replay=None):
             merged['notes'] += st.get('notes', [])
             for f in st.get('failures', []):
                 failures.append((s, f))
+                if f.get('class') == 'crash' and f.get('replay'):
+                    try:   # what the dying process printed (sanitizer report), next to its replay file
+                        open(f['replay'] + '.log', 'w').write(out[-30000:])
+                    except Exception:
+                        pass
         if to:
             inconclusive += 1
             notes.append('sub-check %s shard %d hit its time budget (inconclusive, not a violation)' % (s.name, i))
